@@ -1774,7 +1774,7 @@ def run(ctx):
                                     "equal"), ("interleaving", "random-3"))
 
     # 3. all routes against each other on random specs
-    n_specs = 26 if quick else 110
+    n_specs = 24 if quick else 110
     for k in range(n_specs):
         spec = gen_spec(rng, quick)
         routes = list(ALL_ROUTES)
@@ -1783,7 +1783,7 @@ def run(ctx):
         for i, r in enumerate(routes):
             steps = gen_steps(rng, rng.choice([0, 0, 1, 2, 3]))
             run_pair(ctx, pair_case(spec, r, spec, "dense" if i % 2 == 0 else routes[(i + 1) % len(routes)], steps,
-                                    "equal", exports=(i % 8 == 0)), ("routes",))
+                                    "equal", exports=(i % 10 == 0)), ("routes",))
         # transitivity / symmetry on families: 3 routes of the same content + one single-difference table
         for _ in range(3):
             kind, other = mutate(rng, spec)
@@ -2082,7 +2082,7 @@ def run(ctx):
         ctx.count("single-difference=add_metadata", 2)
 
     # 5. single-difference pairs
-    for k in range(270 if quick else 1800):
+    for k in range(230 if quick else 1800):
         spec = gen_spec(rng, quick)
         kind, other = mutate(rng, spec)
         if kind is None:
@@ -2097,7 +2097,7 @@ def run(ctx):
             run_pair(ctx, pair_case(other, rb, spec, ra, st, "differs"), ("single-difference", "mutation=" + kind))
 
     # 6. kernel level: dataEq vs the real _data_equality, eliminateZeros vs scipy's eliminate_zeros
-    for k in range(400 if quick else 8000):
+    for k in range(300 if quick else 8000):
         run_kernel(ctx, gen_kernel_case(rng), ("kernel",))
 
     state_cases("late")
